@@ -112,6 +112,11 @@ CStrValue(p) == SubSeq(p, 1, Len(p) - 1)
 PartRows == {[part |-> "cstr1", payload |-> p, accept |-> CStrAccepts(p),
               value |-> IF CStrAccepts(p) THEN CStrValue(p) ELSE <<>>] : p \in Payloads}
 ASSUME \A r \in PartRows : r.accept => Len(r.value) + 1 = Len(r.payload)
+\* ---- "cstrlen": the size prefix is one byte and counts the terminator: a value of n bytes is
+\*      encodable iff n + 1 <= 255 (a longer one is refused, never written with a wrapped prefix);
+\*      payload = <<n>>, value = <<encoded length>> ----
+CStrLenRows == {[part |-> "cstrlen", payload |-> <<n>>, accept |-> (n + 1 <= 255),
+                 value |-> IF n + 1 <= 255 THEN <<n + 2>> ELSE <<>>] : n \in {0, 1, 127, 128, 253, 254, 255, 256, 257, 510, 511, 512, 70000}}
 
 \* ---- "tagged": a digest is encoded only when its length is the size of its algorithm (over-long and
 \*      short digests are refused, not truncated or padded); payload = <<algorithm id, digest length>> ----
@@ -135,7 +140,7 @@ ASSUME \A r \in GuidHobRows : r.accept <=> r.payload[1] <= 65504
 \* the accepted byte string is the structure's prefix of the buffer.
 ExactDecoders == {"EfiGuid", "SevEsResetBlock"}
 ASSUME ExactDecoders \subseteq DOMAIN Tables
-EmitTables == PrintT(<<"VEDGE", ToJson([tables |-> Tables, grammars |-> Grammars, parts |-> PartRows \cup TaggedRows \cup GuidHobRows,
+EmitTables == PrintT(<<"VEDGE", ToJson([tables |-> Tables, grammars |-> Grammars, parts |-> PartRows \cup TaggedRows \cup GuidHobRows \cup CStrLenRows,
                                         exact |-> ExactDecoders])>>)
 ASSUME EmitTables
 Emit == PrintT(<<"VCASE", ToJson([s |-> pick.s, field |-> Tables[pick.s].fields[pick.f].name, cls |-> pick.c])>>)
